@@ -46,6 +46,10 @@ def families(tier):
     fams.append(("dots", [("f=%d" % f, "." * f) for f in range(1, 201, 3)]))
     fams.append(("open-brackets", [("n=%d" % n, "[" * n) for n in (1, 2, 10, 1000, 100000)]))
     fams.append(("long-symbol", [("n=%d" % n, "[" + "C" * n + "]") for n in (1, 10, 1000, 100000)]))
+    digs = (1, 10, 100, 1000, 4299, 4300, 4301, 5000, 100000)
+    fams.append(("long-digit-run", [("%s n=%d" % (k, n), t % ("1" * n)) for n in digs for k, t in
+                                    (("isotope", "[%sC]"), ("charge", "[C+%s]"), ("charge-in-chain", "[C][N-%s][O]"),
+                                     ("isotope-expl", "[%sCexpl]"), ("Hcount", "[CH%s]"), ("index-ctx", "[C][Ring1][%sC]"))]))
     fams.append(("oversized-index", [("n=%d" % n, "[C][C]" + "[Ring3][P][P][P]" * n) for n in (1, 5, 50, 500)]))
     return fams
 
